@@ -1202,14 +1202,21 @@ func C04_args_nested_var() {
 	var val interface{}
 	strict := true
 	if c.vTyp.k == tInput {
-		v = symObj("v", c.vTyp, 1)
 		ik := sym.Choice("int kind", 4)
 		strict = ik == 0 || ik == 2
+		rich := 1
+		if ik == 0 {
+			rich = -1 // integers travel as float64: concrete digits (see C04_args_input)
+		}
+		v = symObj("v", c.vTyp, rich)
 		v, val = v.viaKind(ik)
 	} else {
 		switch sym.Choice("v kind", 4) {
 		case 0:
-			f := sym.Float64("v")
+			// concrete boundary floats (the full-width float64 -> Int obligation is
+			// C04_IntIn's; repeating it behind the resolver stalls the solver)
+			fs := []float64{1.5, 7, -0.0, 2147483647, 2147483648, -2147483649, 1e39, math.NaN(), math.Inf(1)}
+			f := fs[sym.Choice("v float", len(fs))]
 			v, val = &wv{k: wFloat, f: f}, f
 		case 1:
 			i := sym.Int64("v")
